@@ -245,4 +245,56 @@ theorem containsRegion_iff (A B : Region α) (hB : Region.Proper B) :
 /-- the hypothesis is met by what the API constructs -/
 example (id : String) (a b c d : α) : Region.Proper (Region.mkRect id a b c d) := mkRect_proper id a b c d
 
+
+/-! ## Degenerate and touching cases, spelled out
+
+Corollaries of the two characterisations: the regions are *closed* (border points belong to
+them), a rectangle given by one point twice is that point, a circle of radius 0 is its centre, a
+circle with a negative radius excludes nothing. -/
+
+theorem rect_corners_inside (id : String) (a b c d : α) :
+    (Region.mkRect id a b c d).containsPoint a b = true ∧
+    (Region.mkRect id a b c d).containsPoint c d = true ∧
+    (Region.mkRect id a b c d).containsPoint a d = true ∧
+    (Region.mkRect id a b c d).containsPoint c b = true := by
+  simp only [rect_contains_iff, min_le_left, min_le_right, le_max_left, le_max_right, and_self]
+
+theorem rect_point (id : String) (a b x y : α) :
+    (Region.mkRect id a b a b).containsPoint x y = true ↔ x = a ∧ y = b := by
+  rw [rect_contains_iff]
+  simp only [min_self, max_self]
+  constructor
+  · rintro ⟨⟨h1, h2⟩, h3, h4⟩; exact ⟨le_antisymm h2 h1, le_antisymm h4 h3⟩
+  · rintro ⟨rfl, rfl⟩; exact ⟨⟨le_refl _, le_refl _⟩, le_refl _, le_refl _⟩
+
+theorem circle_border_inside (id : String) (cx cy r : α) (hr : 0 ≤ r) :
+    (Region.circle id cx cy r).containsPoint (cx + r) cy = true ∧
+    (Region.circle id cx cy r).containsPoint (cx - r) cy = true ∧
+    (Region.circle id cx cy r).containsPoint cx (cy + r) = true ∧
+    (Region.circle id cx cy r).containsPoint cx (cy - r) = true := by
+  simp only [circle_contains_iff]
+  refine ⟨⟨hr, ?_⟩, ⟨hr, ?_⟩, ⟨hr, ?_⟩, ⟨hr, ?_⟩⟩ <;> (ring_nf; exact le_refl _)
+
+theorem circle_zero (id : String) (cx cy x y : α) :
+    (Region.circle id cx cy 0).containsPoint x y = true ↔ x = cx ∧ y = cy := by
+  rw [circle_contains_iff]
+  constructor
+  · rintro ⟨_, h⟩
+    have h1 : (x - cx) * (x - cx) = 0 := by nlinarith [mul_self_nonneg (x - cx), mul_self_nonneg (y - cy)]
+    have h2 : (y - cy) * (y - cy) = 0 := by nlinarith [mul_self_nonneg (x - cx), mul_self_nonneg (y - cy)]
+    exact ⟨sub_eq_zero.mp (mul_self_eq_zero.mp h1), sub_eq_zero.mp (mul_self_eq_zero.mp h2)⟩
+  · rintro ⟨rfl, rfl⟩; exact ⟨le_refl _, by simp⟩
+
+theorem circle_negative_empty (id : String) (cx cy r x y : α) (hr : r < 0) :
+    (Region.circle id cx cy r).containsPoint x y = false := by
+  rw [Bool.eq_false_iff]; intro h
+  exact absurd ((circle_contains_iff id cx cy r x y).mp h).1 (not_le.mpr hr)
+
+/-- two rectangles sharing an edge: the points of the shared edge belong to both -/
+theorem rect_touching (i j : String) (a b c d e : α) (y : α) (hy : min b d ≤ y ∧ y ≤ max b d) :
+    (Region.mkRect i a b c d).containsPoint c y = true ∧
+    (Region.mkRect j c b e d).containsPoint c y = true := by
+  simp only [rect_contains_iff]
+  exact ⟨⟨⟨min_le_right _ _, le_max_right _ _⟩, hy⟩, ⟨⟨min_le_left _ _, le_max_left _ _⟩, hy⟩⟩
+
 end ERP.C17
